@@ -17,17 +17,24 @@
    while alive = false is a use of a destroyed object (uaf_user / uaf_dtor).
    The parts of EventLoopThread.cc that the theorems depend on are the `eshape`, regenerated from
    the current source by lib/gen_C05.py. *)
-From Coq Require Import List Bool Arith.
+From Coq Require Import List Bool Arith ZArith.
 Import ListNotations.
 From Muduo Require Import C04_Model.
+
+(* C integer semantics used by the functions generated from EventLoopThreadPool.cc (lib/gen_C05.py):
+   `int` arithmetic wraps in two's complement (what the compiled code does; gcc -fwrapv), a
+   conversion to size_t is reduction modulo 2^64 *)
+Definition wrap32 (z : Z) : Z := ((z + 2147483648) mod 4294967296 - 2147483648)%Z.
+Definition to_size (z : Z) : Z := (z mod 18446744073709551616)%Z.
 
 Record eshape := mkEShape {
   tf_notifies : bool;     (* threadFunc: cond_.notify()/notifyAll() after loop_ = &loop, under the mutex *)
   sl_while : bool;        (* startLoop: the wait is in a `while (loop_ == NULL)` (false: an `if`) *)
   dtor_quits : bool;      (* ~EventLoopThread: loop_->quit() when loop_ != NULL *)
-  dtor_joins : bool }.    (* ~EventLoopThread: thread_.join() after it *)
+  dtor_joins : bool;      (* ~EventLoopThread: thread_.join() after it *)
+  tf_clears : bool }.     (* threadFunc: { lock; loop_ = NULL; } after loop.loop() returned *)
 
-Definition pinned_eshape : eshape := mkEShape true true true true.
+Definition pinned_eshape : eshape := mkEShape true true true true true.
 
 Inductive opc :=
 | OInit      (* before startLoop() *)
@@ -157,7 +164,7 @@ Definition child_step (es : eshape) (sh : shape) (scr : scripts) (e : elt) : opt
   | CUnlock1 => Some (with_mtx (with_ec e CLoop) None)
   | CLoop =>
       match pc (ls e), lnext (ls e) with
-      | LDone, [] => Some (with_ec e CLock2)
+      | LDone, [] => Some (with_ec e (if tf_clears es then CLock2 else CDestroy))
       | _, _ => match step sh scr (ls e) TLoop with Some l' => Some (with_ls e l') | None => None end
       end
   | CLock2 => if mtx_free e then Some (with_mtx (with_ec e CClear) (Some false)) else None
